@@ -7,6 +7,7 @@ import (
 	"bufio"
 	"fmt"
 	"io"
+	"os"
 	"os/exec"
 	"strconv"
 	"strings"
@@ -30,6 +31,7 @@ type solver struct {
 	stats solverStats
 	log   io.Writer // optional transcript
 	tmoMs int
+	last  string
 }
 
 func solverArgv(kind string, timeoutMs int) []string {
@@ -82,7 +84,19 @@ func (s *solver) close() {
 	s.cmd = nil
 }
 
+var slowQueryMs = func() int {
+	n := 0
+	fmt.Sscanf(os.Getenv("GOSX_SLOWQ"), "%d", &n)
+	return n
+}()
+
 func (s *solver) send(txt string) {
+	if slowQueryMs > 0 {
+		s.last += txt
+		if len(s.last) > 4000 {
+			s.last = s.last[len(s.last)-4000:]
+		}
+	}
 	if s.log != nil {
 		io.WriteString(s.log, txt)
 	}
@@ -134,6 +148,13 @@ func (s *solver) checkSat() string {
 	r := s.readSexp()
 	s.stats.duration += time.Since(t0)
 	s.stats.queries++
+	if slowQueryMs > 0 && time.Since(t0) > time.Duration(slowQueryMs)*time.Millisecond {
+		l := s.last
+		if len(l) > 1500 {
+			l = l[len(l)-1500:]
+		}
+		fmt.Fprintf(os.Stderr, "SLOW QUERY %.2fs -> %s: ...%s\n", time.Since(t0).Seconds(), r, l)
+	}
 	switch r {
 	case "sat":
 		s.stats.sat++
